@@ -334,3 +334,145 @@ def c18_8(ctx: Ctx):
     ok = len(adds) == 1 and linear(seh.node).under(adds[0][0], "isinstance(next_block, gtirb.CodeBlock)")
     ctx.check(ok, seh, adds[0][1] if adds else seh.node, "the next block inherits the safe-SEH flag only when it is a code block", "the inheriting block is not checked to be code (a data block or None is added to peSafeExceptionHandlers)",
               key="_update_pe_safe_seh::next-is-code")
+
+
+def _fold_register_names(fi, inclusive_ok: bool) -> Dict[str, int]:
+    """Names (of the widest view) of the Register(...) objects all_registers() builds, with multiplicity."""
+    from ..region import Unknown, minieval
+
+    out: Dict[str, int] = {}
+
+    def add(n):
+        out[n] = out.get(n, 0) + 1
+
+    for n in ast.walk(fi.node):
+        if isinstance(n, (ast.ListComp, ast.GeneratorExp, ast.SetComp)) and isinstance(n.elt, ast.Call) and src(n.elt.func) == "Register" and n.elt.args and isinstance(n.elt.args[0], ast.Dict):
+            gen = n.generators[0]
+            if not (isinstance(gen.iter, ast.Call) and src(gen.iter.func) == "self._inclusive_range" and isinstance(gen.target, ast.Name)):
+                raise AnalysisError(f"{fi.qual}: register comprehension over {src(gen.iter)[:40]} not understood")
+            lo, hi = minieval(gen.iter.args[0], {}), minieval(gen.iter.args[1], {})
+            first = n.elt.args[0].values[0]
+            if not isinstance(first, ast.JoinedStr):
+                raise AnalysisError(f"{fi.qual}: register name template not an f-string")
+            prefix = "".join(v.value for v in first.values if isinstance(v, ast.Constant))
+            for i in range(lo, hi + 1):
+                add(f"{prefix}{i}")
+        elif isinstance(n, ast.Call) and src(n.func) == "Register" and n.args and isinstance(n.args[0], ast.Dict):
+            first = n.args[0].values[0]
+            if isinstance(first, ast.Constant):
+                add(first.value)
+            elif isinstance(first, ast.Name):
+                # Register({"32": reg}, ...) inside `for reg in [literals]`
+                for f in ast.walk(fi.node):
+                    if isinstance(f, ast.For) and isinstance(f.target, ast.Name) and f.target.id == first.id and isinstance(f.iter, (ast.List, ast.Tuple)):
+                        for e in f.iter.elts:
+                            if isinstance(e, ast.Constant):
+                                add(e.value)
+    return out
+
+
+@rule("C16.12", ["C16", "C17"], "ARM64 and MIPS32 register tables list exactly the ISA's general registers, each once (test-suite-surviving mutants)", 4)
+def c16_12(ctx: Ctx):
+    from ..region import Unknown, minieval
+
+    repo = ctx.repo
+    want = {
+        "_ARM64_ELF": {f"x{i}" for i in range(31)},
+        "_MIPS32_ELF": {f"t{i}" for i in range(10)} | {f"a{i}" for i in range(4)} | {f"s{i}" for i in range(8)} | {"v0", "v1", "k0", "k1", "at", "zero", "gp", "sp", "fp", "ra"},
+    }
+    for cname, w in want.items():
+        ir = repo.func(f"abi.{cname}._inclusive_range")
+        rets = [n for n in walk_no_nested(ir.node) if isinstance(n, ast.Return)]
+        ok = len(rets) == 1 and isinstance(rets[0].value, ast.Call) and src(rets[0].value.func) == "range" and len(rets[0].value.args) == 2
+        if ok:
+            try:
+                ok = all(minieval(rets[0].value.args[0], {"start": a, "end": b}) == a and minieval(rets[0].value.args[1], {"start": a, "end": b}) == b + 1 for a, b in ((0, 3), (2, 9)))
+            except Unknown:
+                ok = False
+        ctx.check(ok, ir, ir.node, f"{cname}._inclusive_range(a, b) is range(a, b + 1)", f"returns `{src(rets[0].value) if rets else '?'}`: every register list built from it gains or loses its last entry",
+                  key=f"{cname}::inclusive-range")
+        fa = repo.func(f"abi.{cname}.all_registers")
+        got = _fold_register_names(fa, ok)
+        dup = sorted(k for k, n in got.items() if n > 1)
+        ctx.check(set(got) == w and not dup, fa, fa.node, f"{cname}.all_registers() = the {len(w)} general registers, each once",
+                  f"missing {sorted(w - set(got))}, unknown {sorted(set(got) - w)}, duplicated {dup}: a clobber of a missing register raises KeyError, an unknown one (t10, x31) is handed to the assembler as scratch",
+                  key=f"{cname}::all-registers")
+
+
+@rule("C07.11", ["C07", "C01"], "scope matching: the three _block_matches predicates are exactly the documented ones (test-suite-surviving mutants)", 6)
+def c07_11(ctx: Ctx):
+    from ..effects import predicate_formula
+
+    repo = ctx.repo
+    fb = repo.cls("scopes.AllBlocksScope").methods["_block_matches"]
+    pf = predicate_formula(repo, fb)
+    lb = linear(fb.node)
+    if pf is None:
+        raise AnalysisError("AllBlocksScope._block_matches: not a boolean cascade")
+    want = lb.cond(ast.parse("isinstance(block, gtirb.CodeBlock) and (func is None or self.exclude_functions is None or not pattern_match(module, func, self.exclude_functions))", mode="eval").body, {})
+    ctx.check(implies(pf, want) and implies(want, pf), fb, fb.node, "AllBlocksScope: code blocks, minus those of excluded functions (blocks outside any function and an absent filter always match)",
+              f"predicate is `{f_show(pf)[:160]}`: blocks are skipped or patched that the scope does not describe", key="AllBlocksScope::_block_matches")
+    ff = repo.cls("scopes.AllFunctionsScope").methods["_block_matches"]
+    lf = linear(ff.node)
+    fm = single_assign_value(ff.node, "function_matches")
+    ctx.check(fm is not None and _equiv(lf, fm, "self.functions is None or pattern_match(module, func, self.functions)"), ff, fm or ff.node,
+              "AllFunctionsScope: a function matches when there is no filter or the filter names it", f"function_matches = {src(fm) if fm else '?'}", key="AllFunctionsScope::function_matches")
+    falses = [g for g in lf.stmts if isinstance(g.node, ast.Return) and isinstance(g.node.value, ast.Constant) and g.node.value.value is False]
+    ok = len(falses) == 2
+    if ok:
+        w1 = lf.cond_at(falses[0], ast.parse("func is None", mode="eval").body)
+        w2 = lf.cond_at(falses[1], ast.parse("func is not None and not function_matches", mode="eval").body)
+        ok = implies(falses[0].guard, w1) and implies(w1, falses[0].guard) and implies(falses[1].guard, w2) and implies(w2, falses[1].guard)
+    ctx.check(ok, ff, ff.node, "AllFunctionsScope: no match without a function, no match for a function the filter does not name", "the two refusals changed", key="AllFunctionsScope::refusals")
+    cs = repo.cls("scopes.SingleBlockScope")
+    bm, kt = cs.methods["_block_matches"], cs.methods["_known_targets"]
+    r1 = [n for n in walk_no_nested(bm.node) if isinstance(n, ast.Return)]
+    r2 = [n for n in walk_no_nested(kt.node) if isinstance(n, ast.Return)]
+    ctx.check(len(r1) == 1 and r1[0].value is not None and src(r1[0].value) == canon("self.block == block"), bm, bm.node, "SingleBlockScope matches exactly its block", f"returns `{src(r1[0].value) if r1 and r1[0].value is not None else None}`",
+              key="SingleBlockScope::_block_matches")
+    ctx.check(len(r2) == 1 and r2[0].value is not None and src(r2[0].value) == "{self.block}", kt, kt.node, "SingleBlockScope's known target set is {its block}", f"returns `{src(r2[0].value) if r2 and r2[0].value is not None else None}`",
+              key="SingleBlockScope::_known_targets")
+    nd = [(c, m) for c in ("AllBlocksScope", "AllFunctionsScope", "SingleBlockScope") for m in [repo.cls(f"scopes.{c}").methods.get("_needs_disassembly")] if m is not None]
+    ctx.check(len(nd) == 3, repo.mod("scopes"), None, "each scope says whether it needs disassembly", "a _needs_disassembly override disappeared", key="scopes::needs_disassembly-present")
+
+
+@rule("C12.14", ["C12", "C08", "C04"], "CFI procedures follow block replacement at both ends; every symbolic operand form carries its variant attributes (test-suite-surviving mutants)", 6)
+def c12_14(ctx: Ctx):
+    repo = ctx.repo
+    rb = repo.func("assembler.assembler.Assembler.Result.CFIProcedure._replace_block")
+    lin = linear(rb.node)
+    for end in ("start_offset", "end_offset"):
+        gs = [g for g in lin.stmts if isinstance(g.node, ast.Assign) and src(g.node.targets[0]) == f"self.{end}"]
+        ok = len(gs) == 1 and src(gs[0].node.value) == f"self.{end}._replace(element_id=new_block)"
+        if ok:
+            want = lin.cond_at(gs[0], ast.parse(f"self.{end} and self.{end}.element_id == old_block", mode="eval").body)
+            ok = implies(gs[0].guard, want) and implies(want, gs[0].guard)
+        ctx.check(ok, rb, gs[0].node if gs else rb.node, f"the procedure's {end} is re-pointed exactly when it names the replaced block",
+                  f"{end} is {'not re-pointed' if not gs else 'guarded by ' + f_show(gs[0].guard)[:80]}: after an empty label block is folded away the procedure starts/ends on a block that is "
+                  "not in the section (its .cfi_startproc/.cfi_endproc is keyed outside the module) or an unrelated procedure is moved",
+                  key=f"CFIProcedure._replace_block::{end}")
+    rn = repo.func("assembler.assembler.Assembler.Result.CFIProcedure._referenced_nodes")
+    t = " ".join(src(rn.node).split())
+    ctx.check("yield self.start_offset.element_id" in t and "yield self.end_offset.element_id" in t and "self.instructions.node_keys()" in t, rn, rn.node,
+              "a procedure refers to the blocks of its start, its end and all its instructions", "one of the three sources of referenced blocks is gone: a block that only carries the start/end of a procedure counts as CFI-free and is dropped",
+              key="CFIProcedure._referenced_nodes")
+    mo = repo.func("assembler.assembler._Streamer._mcexpr_to_symbolic_operand")
+    lm = linear(mo.node)
+    rets = [g for g in lm.stmts if isinstance(g.node, ast.Return) and isinstance(g.node.value, ast.Call) and src(g.node.value.func) in ("gtirb.SymAddrConst",)]
+    if len(rets) < 2:
+        raise AnalysisError("_mcexpr_to_symbolic_operand: SymAddrConst results not found")
+    for ordinal, g in enumerate(rets):
+        call = g.node.value
+        attrs = call.args[2] if len(call.args) > 2 else next((k.value for k in call.keywords if k.arg == "attributes"), None)
+        # between the nearest preceding _resolve_symbol_ref under the same guard and this return, the variant attributes must be merged in
+        merged = [x for x in lm.stmts if x.index < g.index and implies(g.guard, x.guard) and isinstance(x.node, ast.AugAssign) and src(x.node.target) == "attributes" and "_get_symbol_ref_attrs" in src(x.node.value)]
+        inline = attrs is not None and "_get_symbol_ref_attrs" in src(attrs)
+        ctx.check(attrs is not None and (merged or inline), mo, g.node, f"`{src(call)[:50]}`: the symbol reference's variant/PLT attributes are merged into the expression",
+                  "this operand form returns its expression without consulting _get_symbol_ref_attrs: `sym@GOTPCREL+8` (symbol plus constant) loses its attributes and denotes sym+8 itself",
+                  key=f"_mcexpr_to_symbolic_operand::attrs::#{ordinal}")
+    rt = repo.func("assembler.assembler._Streamer._resolve_instruction_target")
+    calls = [c for c in calls_in(rt.node) if src(c.func) == "self._fixup_to_symbolic_operand"]
+    ok = len(calls) == 1 and len(calls[0].args) == 4 and src(calls[0].args[0]) == "fixups[0]" and src(calls[0].args[2]) == "True"
+    ctx.check(ok, rt, calls[0] if calls else rt.node, "the target of a direct transfer is its (only) fixup, converted as a branch operand",
+              f"called as `{src(calls[0])[:80] if calls else '?'}`: the edge target is computed from another fixup or without the branch flag (no PLT inference for the target symbol)",
+              key="_resolve_instruction_target::fixup0-as-branch")
